@@ -275,10 +275,12 @@ impl MqttShared {
 
     /// Close mqtt connection, dont send disconnect message
     pub(super) fn drop_sink(&self, io: bool) {
-        self.clear_queues();
+        // close io first, callbacks released by `clear_queues()` must not be
+        // able to write after DISCONNECT packet
         if io {
             self.io.close();
         }
+        self.clear_queues();
     }
 
     pub(super) fn drop_payload<E>(&self, err: &E)
